@@ -3,7 +3,7 @@
 usage: extract_consts.py <group>... | all      (groups are added as properties need them)"""
 import sys, os, re
 ROOT = os.path.dirname(os.path.dirname(os.path.abspath(__file__)))
-REPO = "/repo"
+REPO = os.environ.get("VERIF_REPO", "/repo")   # scratch copies only for mutation experiments
 GROUPS = {}
 
 def group(name):
